@@ -435,6 +435,37 @@ Proof.
     + exfalso. apply nth_error_None in E. lia.
 Qed.
 
+(* ---- every node but the root is required by some node (so every node of the graph is needed) ---- *)
+Definition hasout (b : bst) : Prop := forall n, 0 < n -> n < length (nodes b) -> out b n <> [].
+Lemma app_one_nonnil {A} (l : list A) x : l ++ [x] <> []. Proof. destruct l; discriminate. Qed.
+Lemma resolve_edge_hasout b t n1 i b' n2 sx : hasout b -> resolve b t = (b', n2, sx) -> hasout (add_edge b' n2 sx n1 i).
+Proof.
+  intros H R. unfold resolve in R.
+  assert (Old : forall n, hasout (add_edge b n sx n1 i)).
+  { intros n m Hm Hl. unfold add_edge in *. cbn [nodes out] in *. destruct (Nat.eq_dec m n) as [->|Hne]; [rewrite fupd_eq; apply app_one_nonnil | rewrite fupd_neq by auto; apply H; auto]. }
+  assert (New : forall k pnx anx q, hasout (add_edge {| nodes := nodes b ++ [k]; red := red b; out := out b; pn := pnx; an := anx; queue := q |} (length (nodes b)) sx n1 i)).
+  { intros k pnx anx q m Hm Hl. unfold add_edge in *. cbn [nodes out] in *. rewrite app_length in Hl. simpl in Hl.
+    destruct (Nat.eq_dec m (length (nodes b))) as [->|Hne]; [rewrite fupd_eq; apply app_one_nonnil | rewrite fupd_neq by auto; apply H; auto; lia]. }
+  destruct (pm t) as [[pi gi]|].
+  - destruct (assocn pi (pn b)); inversion R; subst; [apply Old | apply New].
+  - destruct (assocN t (an b)); inversion R; subst; [apply Old | apply New].
+Qed.
+Lemma do_reqs_hasout : forall ts b n1 i, hasout b -> hasout (do_reqs b n1 i ts).
+Proof.
+  induction ts as [|t r IH]; intros b n1 i H; simpl; auto.
+  destruct (resolve b t) as [[b' n2] sx] eqn:R. apply IH. eapply resolve_edge_hasout; eauto.
+Qed.
+Lemma loop_hasout : forall fuel b vis b' vis', hasout b -> loop fuel b vis = Some (b', vis') -> hasout b'.
+Proof.
+  induction fuel as [|fuel IH]; intros b vis b' vis' H L; simpl in L; [discriminate|].
+  destruct (queue b) as [|n1 q]; [inversion L; subst; auto|].
+  set (bq := {| nodes := nodes b; red := red b; out := out b; pn := pn b; an := an b; queue := q |}) in *.
+  assert (Hq : hasout bq) by exact H.
+  destruct (memn n1 vis); [eapply IH; eauto|]. cbn [nodes] in L.
+  destruct (nth_error (nodes b) n1) as [[t|pi]|]; [eapply IH; eauto | | eapply IH; eauto].
+  eapply IH; [|exact L]. apply do_reqs_hasout. exact Hq.
+Qed.
+
 (* ---- the graph facts the scheduler proofs assume ---- *)
 Section Final.
 Variable b : bst. Variable vis : list nat.
